@@ -3,6 +3,9 @@ import Bandit.Drv.Metrics
 import Bandit.Drv.BaselineTool
 import Bandit.Drv.Baseline
 import Bandit.Drv.Format
+import Bandit.Drv.Discovery
+import Bandit.Drv.Manager
+import Bandit.Drv.ConfigLoad
 /-!
 # Line-protocol driver: one JSON request per line on stdin, one JSON answer per line on stdout.
 -/
@@ -11,7 +14,7 @@ open Lean Bandit
 namespace Drv
 
 /-- all registered ops; each area appends its own list here -/
-def allOps : List Op := coreOps ++ MetricsOps.ops ++ Drv.BaselineTool.ops ++ Drv.Baseline.ops ++ Drv.Fmt.ops
+def allOps : List Op := coreOps ++ MetricsOps.ops ++ Drv.BaselineTool.ops ++ Drv.Baseline.ops ++ Drv.Fmt.ops ++ Discovery.ops ++ Drv.Manager.ops ++ Drv.ConfigLoad.ops
 
 def handle (line : String) : String :=
   match Json.parse line with
